@@ -16,14 +16,15 @@ from props import c01
 
 PROP = "C15"
 FLAVOURS = ["opt"]
-RULE = ("cases: seeded base systems of 7 kinds (speciation, reaction, minerals, exchange, surface, gas, kinetics) x 9 transformations (units, per-element units incl. mass units and 'as'/gfw, "
-        "water scaling 1e-3..1e3, renumbering, permutation, repeated definition, SOLUTION_SPREAD, self-mix, mix reordering); distinct & non-trivial = distinct (base kind, transformation) pairs in which both members ran error-free")
+RULE = ("cases: seeded base systems of 7 kinds (speciation, reaction, minerals, exchange, surface, gas, kinetics) x 11 transformations (units, per-element units incl. mass units and 'as'/gfw, "
+        "water scaling 1e-3..1e3, renumbering, permutation, repeated definition, SOLUTION_SPREAD, self-mix, mix reordering, two different solutions (other temperature) mixed in the other order, "
+        "the second of them described with g x the water and taken at 1/g of the fraction); distinct & non-trivial = distinct (base kind, transformation) pairs in which both members ran error-free")
 ASSUME = ["both members use KNOBS -convergence_tolerance 1e-12", "dissolved O2 pins the redox state (a floating pe is not an intensive result of the input)",
           "mass units are converted with formula weights computed from the database's element table, the way the manual defines them", "cases sitting on a phase (dis)appearance boundary are inconclusive",
           "gas-phase columns (pressure, moles, volume) are compared at the solver's measured noise floor 5e-6 instead of 1e-8"]
 
 ELS = {"Na": ("Na", 1), "K": ("K", 1), "Ca": ("Ca", 2), "Mg": ("Mg", 2), "Cl": ("Cl", -1), "S(6)": ("SO4", -2), "C(4)": ("HCO3", -1), "Sr": ("Sr", 2), "Br": ("Br", -1), "Li": ("Li", 1)}
-SEL = ("SELECTED_OUTPUT 1\n -reset false\n -high_precision true\n -pH true\n -ionic_strength true\n -totals Na K Ca Mg Cl S(6) C(4) Sr Br Li\n -molalities Na+ Cl- Ca+2 HCO3- CaSO4 OH- NaX CaX2 Hfo_wOH Hfo_wOCa+\n"
+SEL = ("SELECTED_OUTPUT 1\n -reset false\n -high_precision true\n -pH true\n -temperature true\n -ionic_strength true\n -totals Na K Ca Mg Cl S(6) C(4) Sr Br Li\n -molalities Na+ Cl- Ca+2 HCO3- CaSO4 OH- NaX CaX2 Hfo_wOH Hfo_wOCa+\n"
        " -saturation_indices Calcite Gypsum Halite CO2(g) Celestite\n -equilibrium_phases Calcite Gypsum Celestite\n -gases CO2(g) N2(g)\n -kinetic_reactants first_rate\n"
        "USER_PUNCH 1\n -headings rho soln_vol sc\n -start\n 10 PUNCH RHO, SOLN_VOL, SC\n -end\n")      # density and conductance are intensive, the solution volume scales with the water
 EXTENSIVE_PREFIX = ("Calcite", "d_Calcite", "Gypsum", "d_Gypsum", "Celestite", "d_Celestite", "g_", "k_", "dk_", "volume", "soln_vol")
@@ -72,6 +73,9 @@ def make_spec(r):
         spec["gas"] = (gens.loguni(r, 0.2, 2), {"CO2(g)": gens.loguni(r, 1e-3, 0.1), "N2(g)": gens.loguni(r, 0.1, 0.8)})
     elif kind == "kin":
         spec["kin"] = (gens.loguni(r, 1e-3, 1e-2), gens.loguni(r, 1e-6, 1e-4), gens.loguni(r, 1e3, 1e4))
+    # a second, different solution (other temperature and composition) for the two-solution mixes
+    spec["sol2"] = dict(conc={e: c * gens.loguni(r, 0.2, 5) for e, c in conc.items()}, ph=round(r.uniform(5.5, 9), 2), temp=r.choice([5, 10, 35, 60, 80]))
+    spec["mixf"] = (round(r.uniform(0.2, 1.5), 3), round(r.uniform(0.2, 1.5), 3))
     return spec
 
 
@@ -149,7 +153,22 @@ def render(db, spec, r, tr):
         blocks.append("KINETICS %d\n first_rate\n -formula NaCl 1\n -m0 %s\n -parms %s\n -tol %s\n -steps %s\n -runge_kutta 6\n" % (num, f(m0 * wf), f(kk), f(1e-12 * wf), f(T)))      # -tol is an amount: it scales too
     if tr in ("permute", "repeat") and len(blocks) and r.random() < 0.5:
         blocks = blocks + blocks if tr == "repeat" else blocks
-    if tr in ("selfmix", "mixorder"):
+    if tr in ("mix2base", "mix2order", "mix2split"):
+        # two different solutions mixed: listed in the other order, or the second one described with g times the water (and everything in it) and taken at 1/g of the fraction
+        s2 = spec["sol2"]
+        g = r.choice([0.25, 0.5, 2.0, 4.0]) if tr == "mix2split" else 1.0
+        body2 = " temp %s\n pH %s\n units mol/kgw\n" % (f(s2["temp"]), f(s2["ph"])) + "".join(" %s %s\n" % (e, f(c)) for e, c in s2["conc"].items()) + " O(0) %s\n" % f(2e-4)
+        if g != 1.0:
+            body2 += " -water %s\n" % f(g)
+        a, b = spec["mixf"]
+        t += "SOLUTION 2\n" + body2 + "END\n"
+        pair = [" %d %s\n" % (num, f(a)), " 2 %s\n" % f(b / g)]
+        if tr == "mix2order":
+            pair.reverse()
+        t += "MIX %d\n" % num + "".join(pair) + "".join(blocks)
+        if not blocks:
+            t += "REACTION %d\n H2O 1\n 0 mol\n" % num
+    elif tr in ("selfmix", "mixorder"):
         # the initial solution is calculated first; the reaction step then uses a mix that is identical to it
         t += "END\n"
         if tr == "selfmix":
@@ -167,7 +186,7 @@ def render(db, spec, r, tr):
     return t + "END\n", wf
 
 
-TRANSFORMS = ["units", "perelement", "water", "renumber", "permute", "repeat", "spread", "selfmix", "mixorder"]
+TRANSFORMS = ["units", "perelement", "water", "renumber", "permute", "repeat", "spread", "selfmix", "mixorder", "mix2order", "mix2split", "mix2split"]
 
 
 def last_rows(snap):
@@ -184,7 +203,9 @@ def run_case(ctx, case):
     rb = ctx.rng("meta", case["i"], "b")
     try:
         base_tr = "base" if tr not in ("selfmix", "mixorder") else "basemix"
-        if base_tr == "basemix":
+        if tr in ("mix2order", "mix2split"):
+            t1, _ = render(db, spec, rb, "mix2base")
+        elif base_tr == "basemix":
             # base member of the mix transformations: the same two-simulation shape with a plain USE
             t1, _ = render(db, spec, rb, "selfmix")
             import re
